@@ -42,7 +42,7 @@ def main(argv):
         args = [harness, "c11", "--out", c.work, "--replaycase", cases_path]
     else:
         args = [harness, "c11", "--seed", str(c.seed), "--tier", c.tier, "--out", c.work]
-    rc, out = vlib.run(args + ["2>/dev/null"] if False else args, timeout=1800, env=dict(os.environ))
+    rc, out = vlib.run(args, timeout=1800)
     if rc != 0:
         c.violation("C11:harness-run", "harness failed rc=%s: %s" % (rc, out[-500:]),
                     dict(correspondence="harness run", log=out[-3000:]), no_input=True)
@@ -98,6 +98,9 @@ def main(argv):
                 c.violation("C11:end-to-end-" + op, "name %s <literal of %r> matched %s of the candidates, expected %s" % (op, s, got, want),
                             dict(case=case, impl=i, expected=want, value=repr(s), candidates=[repr(x) for x in cands]))
             distinct.add(case)
+    if c.replay:
+        for case, i, m in zip(cases, impl, modl):
+            vlib.log("REPLAY case=%s\n  impl =%s\n  model=%s" % (case, i, m))
     c.cov["evaluations"] = len(cases)
     c.cov["distinct_nontrivial"] = len(distinct)
     c.cov["disagreements_checked"] = len(disagreements)
